@@ -247,8 +247,61 @@ impl<T: std::cmp::PartialEq + std::fmt::Display + std::fmt::Debug + std::clone::
     /// those struct can be used to (de)serialize an XML document
     pub fn to_serde_struct(&self, options: &Options) -> String {
         let trace_length = self.compute_name_hints();
-        let mut trace = Vec::new();
-        self.inner_to_serde_struct(options, &mut trace, &trace_length)
+        let mut struct_names = HashMap::new();
+        self.collect_struct_names(
+            &mut Vec::new(),
+            &mut Vec::new(),
+            &trace_length,
+            &mut HashSet::new(),
+            &mut struct_names,
+        );
+        self.inner_to_serde_struct(options, &mut Vec::new(), &struct_names)
+    }
+
+    /// compute the name of the struct of this element and of all children elements recursivly
+    /// a numeric suffix is appended if a name is reserved or already used by another struct
+    /// names are assigned in document order, so they do not depend on the sorting order of the output
+    /// the key of a name is the path of element names from the root element
+    fn collect_struct_names(
+        &self,
+        trace: &mut Vec<String>,
+        path: &mut Vec<String>,
+        trace_length: &HashMap<String, usize>,
+        used_names: &mut HashSet<String>,
+        struct_names: &mut HashMap<Vec<String>, String>,
+    ) {
+        trace.push(self.formatted_name());
+        path.push(self.name.to_string());
+
+        let name = self.expand_name(trace, trace_length);
+        let mut unique_name = name.clone();
+        let mut i = 1;
+        while RESERVED_STRUCT_NAMES.contains(&unique_name.as_str())
+            || used_names.contains(&unique_name)
+        {
+            i += 1;
+            unique_name = format!("{}{}", name, i);
+        }
+        used_names.insert(unique_name.clone());
+        struct_names.insert(path.clone(), unique_name);
+
+        let mut children: Vec<&Necessity<Element<T>>> = self.children.iter().collect();
+        children.sort_by_key(|c| c.inner_t().position);
+
+        for child in children {
+            if !child.inner_t().contains_only_text() {
+                child.inner_t().collect_struct_names(
+                    trace,
+                    path,
+                    trace_length,
+                    used_names,
+                    struct_names,
+                );
+            }
+        }
+
+        path.pop();
+        trace.pop();
     }
 
     /// generate a String representing this element and all children elements recursivly as series of Rust structs
@@ -256,13 +309,13 @@ impl<T: std::cmp::PartialEq + std::fmt::Display + std::fmt::Debug + std::clone::
     fn inner_to_serde_struct(
         &self,
         options: &Options,
-        trace: &mut Vec<String>,
-        trace_length: &HashMap<String, usize>,
+        path: &mut Vec<String>,
+        struct_names: &HashMap<Vec<String>, String>,
     ) -> String {
         let mut serde_struct = String::new();
         let mut serde_child_struct = String::new();
 
-        trace.push(self.formatted_name());
+        path.push(self.name.to_string());
 
         if !options.derive.is_empty() {
             serde_struct.push_str(&format!("#[derive({})]\n", options.derive));
@@ -270,7 +323,7 @@ impl<T: std::cmp::PartialEq + std::fmt::Display + std::fmt::Debug + std::clone::
 
         serde_struct.push_str(&format!(
             "pub struct {} {{\n",
-            self.expand_name(trace, trace_length)
+            struct_names.get(path).cloned().unwrap_or_default()
         ));
 
         let mut used_attr_names = vec![];
@@ -351,32 +404,26 @@ impl<T: std::cmp::PartialEq + std::fmt::Display + std::fmt::Debug + std::clone::
 
             let text_only_element = child.inner_t().contains_only_text();
 
-            if !text_only_element {
-                trace.push(child.inner_t().formatted_name());
-            }
+            // the type of the field is the name of the struct that is generated for the child
+            let child_type = if text_only_element {
+                "String".to_string()
+            } else {
+                path.push(child_real_name.clone());
+                let name = struct_names.get(path).cloned().unwrap_or_default();
+                path.pop();
+                name
+            };
 
             if child.inner_t().standalone() {
                 match child {
-                    Necessity::Mandatory(c) => {
-                        serde_struct.push_str(&format!(
-                            "    pub {}: {},\n",
-                            &child_name,
-                            if text_only_element {
-                                "String".to_string()
-                            } else {
-                                c.expand_name(trace, trace_length)
-                            }
-                        ));
+                    Necessity::Mandatory(_) => {
+                        serde_struct
+                            .push_str(&format!("    pub {}: {},\n", &child_name, child_type));
                     }
-                    Necessity::Optional(c) => {
+                    Necessity::Optional(_) => {
                         serde_struct.push_str(&format!(
                             "    pub {}: Option<{}>,\n",
-                            &child_name,
-                            if text_only_element {
-                                "String".to_string()
-                            } else {
-                                c.expand_name(trace, trace_length)
-                            }
+                            &child_name, child_type
                         ));
                     }
                 }
@@ -385,35 +432,21 @@ impl<T: std::cmp::PartialEq + std::fmt::Display + std::fmt::Debug + std::clone::
                     Necessity::Optional(_) => {
                         serde_struct.push_str(&format!(
                             "    pub {}: Option<Vec<{}>>,\n",
-                            &child_name,
-                            if text_only_element {
-                                "String".to_string()
-                            } else {
-                                child.inner_t().expand_name(trace, trace_length)
-                            }
+                            &child_name, child_type
                         ));
                     }
                     Necessity::Mandatory(_) => {
-                        serde_struct.push_str(&format!(
-                            "    pub {}: Vec<{}>,\n",
-                            &child_name,
-                            if text_only_element {
-                                "String".to_string()
-                            } else {
-                                child.inner_t().expand_name(trace, trace_length)
-                            }
-                        ));
+                        serde_struct
+                            .push_str(&format!("    pub {}: Vec<{}>,\n", &child_name, child_type));
                     }
                 }
             }
 
             if !text_only_element {
-                trace.pop();
-
                 serde_child_struct.push_str(&child.inner_t().inner_to_serde_struct(
                     options,
-                    trace,
-                    trace_length,
+                    path,
+                    struct_names,
                 ));
             }
         }
@@ -422,11 +455,22 @@ impl<T: std::cmp::PartialEq + std::fmt::Display + std::fmt::Debug + std::clone::
 
         serde_struct.push_str(&serde_child_struct);
 
-        trace.pop();
+        path.pop();
 
         serde_struct
     }
 }
+
+/// names that cannot be used for a generated struct: `Self` is a keyword, the others would shadow
+/// the types used for the fields or clash with the `use serde::{Deserialize, Serialize};` import
+const RESERVED_STRUCT_NAMES: [&str; 6] = [
+    "Self",
+    "String",
+    "Option",
+    "Vec",
+    "Serialize",
+    "Deserialize",
+];
 
 // returns true if the given text starts with "xmlns:" (a xml namespace attribute)
 fn starts_with_xmlns(text: &str) -> bool {
